@@ -68,7 +68,7 @@ QUERY_B = '''query Main($f: Filter) {
 
 OPTS = {
     "o1": {"mode": "cli"},
-    "o2": {"mode": "cli", "normalization": "rust", "response_derives": "Debug, PartialEq", "variables_derives": "Debug"},
+    "o2": {"mode": "cli", "normalization": "rust", "response_derives": "std::fmt::Debug, PartialEq, std::clone::Clone, core::cmp::Eq", "variables_derives": "std::fmt::Debug, core::clone::Clone, std::cmp::PartialEq"},
     "o3": {"mode": "cli", "fragments_other_variant": True, "skip_serializing_none": True},
 }
 
